@@ -146,7 +146,11 @@ def pairProps (g : Globals) (old new : List Stmt) (obs : List SExp) : Verdict :=
       | some k => throw s!"panic in {k}: {o k}"
       | none => pure ()
     let region09 := (Scope.c09 g dbOld old).orElse fun _ => Scope.c09 g dbNew new
-    (judge "C13" (ordering r13 (withReader (Scope.c13 g dbOld dbNew old new))) (r13 true)).and <|
+    -- under the option C13's two predicates are theorems of the model for every pair (`C13.option_predicates`, no hypothesis):
+    -- for the MySQL reader nothing is excused there
+    (let p13 := g.dialect == .mysql && g.ignoreOrder
+     ((if p13 then { items := ["proved[C13]"] } else okV : Verdict)).and
+      (judge "C13" (if p13 then none else ordering r13 (withReader (Scope.c13 g dbOld dbNew old new))) (r13 true))).and <|
     (judge "C13" (ordering r13d (withReader ((Scope.c13 g dbOld dbNew old new).orElse fun _ => Scope.c02 g dbOld dbNew old new))) (r13d true)).and <|
     (judge "C10" none r10).and <|
     (judge "C09" region09 crash)
